@@ -172,6 +172,14 @@ def overall (c : Cfg) (s : State) : SStatus :=
   else if s.lastErr then .error
   else .success
 
+/-- what `Scheduler.Status` RETURNS (since fix 6076232, finding F44): once all steps have finished the
+    outcome read at that moment (`atWait`) is recorded and reported from then on; before that the
+    live cascade `overall` -/
+def reported (c : Cfg) (s : State) : SStatus :=
+  match s.atWait with
+  | some o => o
+  | none => overall c s
+
 def handlerOf : SStatus → Option Handler
   | .success => some .onSuccess
   | .error   => some .onFailure
